@@ -40,13 +40,14 @@ func init() {
 
 // kase is the replayable form of every kind of case.
 type kase struct {
-	Kind   string `json:"kind"`                  // value | modes | layout | expect | boundary | prod
-	Strict bool   `json:"strict_only,omitempty"` // value: only the strict reader was consulted
-	Value  *jval  `json:"value,omitempty"`
-	Text   string `json:"text,omitempty"` // Go-quoted source text
-	Ref    string `json:"ref,omitempty"`  // layout: Go-quoted reference text
-	Expect []jval `json:"expect,omitempty"`
-	B      *bcase `json:"boundary,omitempty"`
+	Kind   string   `json:"kind"`                  // value | modes | layout | expect | boundary | prod
+	Strict bool     `json:"strict_only,omitempty"` // value: only the strict reader was consulted
+	Value  *jval    `json:"value,omitempty"`
+	Text   string   `json:"text,omitempty"` // Go-quoted source text
+	Ref    string   `json:"ref,omitempty"`  // layout: Go-quoted reference text
+	Expect []jval   `json:"expect,omitempty"`
+	B      *bcase   `json:"boundary,omitempty"`
+	DAG    *dagCase `json:"dag,omitempty"`
 }
 
 // execute re-runs one case straight-line.
@@ -92,6 +93,12 @@ func execute(k kase) (*fail, string) {
 			return &fail{"tree-differs", describeAll(want), why}, rep
 		}
 		return nil, rep
+	case "dag":
+		if k.DAG == nil {
+			return nil, "no dag case"
+		}
+		text, shared, f := checkDAG(*k.DAG)
+		return f, fmt.Sprintf("dag %s (one object occurs more than once: %v) prints %s", *k.DAG, shared, short(qtext(text)))
 	case "symmodel":
 		sp := unq(k.Text)
 		st := readStrict(sp)
@@ -424,6 +431,50 @@ func run(r *core.Run) {
 	}
 
 	phase("V-symbol")
+	// ---------------------------------------------------------------- V-dag
+	const dagMaxD = 140
+	var dcs []dagCase
+	for _, via := range []string{"go", "lisp"} {
+		for _, x := range dagXs {
+			for _, sh := range dagShapes {
+				for d := 0; d <= dagMaxD; d++ {
+					dcs = append(dcs, dagCase{Via: via, X: x, Shape: sh, D: d})
+				}
+			}
+		}
+	}
+	r.Bound("V-dag.shared_sub_values", dagXs)
+	r.Bound("V-dag.container_shapes", dagShapes)
+	r.Bound("V-dag.wrapping_depths", fmt.Sprintf("every d in 0..%d", dagMaxD))
+	r.Bound("V-dag.built_via", "Go constructors sharing one *LVal; lisp program (let* ([x X] [v C]) (dotimes (i d) (set! v (list v))) v)")
+	r.Bound("V-dag.cases", len(dcs))
+	var dagShared int64
+	core.ParallelRange(r, lim("V-dag", int64(len(dcs))), func(int) *valWorker { return &valWorker{p.get()} }, func(w *valWorker, i int64) {
+		c := dcs[i]
+		text, shared, f := checkDAG(c)
+		w.t.states++
+		w.t.evals++
+		w.t.trans += 5
+		w.t.traces++
+		r.Nontrivial("dag\x00" + c.String())
+		if shared {
+			skMu.Lock()
+			dagShared++
+			skMu.Unlock()
+		}
+		_ = text
+		dom := "dag-" + c.Via + ":" + c.X
+		if f != nil {
+			w.t.outcomes[dom+":"+f.sub]++
+			cc := c
+			report(r, "value:"+dom+":"+f.sub, kase{Kind: "dag", DAG: &cc}, f)
+			return
+		}
+		w.t.outcomes[dom+":ok"]++
+	})
+	extra["dag_cases_where_one_object_occurs_more_than_once"] = dagShared
+
+	phase("V-dag")
 	// --------------------------------------------------------------- V-tree
 	atoms := []*node{symN("a", 0), {k: kInt, i: -1}}
 	if thorough {
